@@ -226,7 +226,7 @@ def shards(tier):
                 continue
             out.append(('persist', {'profile': profile, 'rounds': 1, 'k': 4 if T else 3, 'first': first, 'newwindow': 0, 'early': 1, 'late': 0,
                                     'broker': 'ack-all', 'lost_before_connack': True}))
-            out.append(('persist', {'profile': profile, 'rounds': 1, 'k': 4, 'first': first, 'newwindow': 0, 'early': 1, 'late': 0,
+            out.append(('persist', {'profile': profile, 'rounds': 1, 'k': 4 if T else 3, 'first': first, 'newwindow': 0, 'early': 1, 'late': 0,
                                     'broker': 'ack-all', 'qos0': True}))
         for early in (0, 1):
             for early2 in (0, 1):
@@ -240,7 +240,7 @@ META = {
     'rule': 'persistent-session client, window symbolic; per round up to k free steps from {publish(QoS symbolic 1..2), PUBACK/PUBREC/PUBCOMP with symbolic identifier, '
             'advance(dt symbolic)} cut by a loss at any point; then a rebuilt protocol (optionally setWindowSize(symbolic)), connect(cleanStart symbolic), 0..1 publish before '
             'CONNACK, CONNACK(session byte symbolic), 0..1 publish after; finally a broker that acknowledges everything twice, or stays silent, and 1000 s',
-    'bounds': {'quick': 'one round with k<=3, two rounds with k<=2; variants: the rebuilt connection is lost before its CONNACK; publishes of QoS 0..2 (k<=4)', 'thorough': 'one round with k<=4, two rounds with k<=3'},
+    'bounds': {'quick': 'one round with k<=3, two rounds with k<=2; variants: the rebuilt connection is lost before its CONNACK; publishes of QoS 0..2', 'thorough': 'one round with k<=4, two rounds with k<=3'},
     'stubs': ['fake transport with asynchronous loss', 'twisted task.Clock', 'jitter: fixed sequence'],
     'outside': ['more than two losses in a row', 'subscribe/unsubscribe across the loss (C07)'],
     'assumptions': ['acknowledgement types fit the exchange they may address'],
